@@ -26,9 +26,9 @@ LEVEL_TEXT = ("Generated I-Regexp patterns x subjects sampled from (and near) ea
               "matcher; non-string and invalid arguments must give false and never raise. Sampled.")
 LEVEL_NOTE = "Trusted: vlib/ref/iregexp.py. The third-party regex / iregexp_check packages are observed only through match()/search()."
 
-LETTERS = ["a", "b", "c", "A", "0", "1", "é"]
+LETTERS = ["a", "b", "c", "A", "0", "1", "\u00e9"]
 PUNCT = ["|", "&", "~", "-", "[", "]", ".", "\\", "(", ")", "*", "+", "?", "{", "}", ",", " ", "'", '"', "/", "#"]
-SPECIAL = ["\n", "\r", " ", "\U0001F600", "\U00010000", "\t"]
+SPECIAL = ["\n", "\r", "\u2028", "\U0001F600", "\U00010000", "\t"]
 ALPHABET = LETTERS + PUNCT[:8] + SPECIAL[:5]
 CATS = ["L", "Lu", "Ll", "N", "Nd", "P", "Z", "S", "Sm", "C"]
 META_OUTSIDE = set("()*+.?[\\]{|}")
@@ -60,14 +60,14 @@ def gen_class(r):
             lo, hi = sorted([r.choice("019"), r.choice("019")])
             items.append(lo + "-" + hi)
         else:
-            items.append(r.choice(["\U0001F600", "é", " ", "A-Z", "0-9", "!-/"]))
+            items.append(r.choice(["\U0001F600", "\u00e9", "\u2028", "A-Z", "0-9", "!-/"]))
     return "[" + ("^" if neg else "") + ("-" if first_dash else "") + "".join(items) + ("-" if last_dash else "") + "]"
 
 
 def gen_atom(r, depth):
     k = r.randrange(12)
     if k < 4:
-        c = r.choice(LETTERS + ["&", "~", "-", ",", " ", "#", "\U0001F600", " ", "'", '"', "/"])
+        c = r.choice(LETTERS + ["&", "~", "-", ",", " ", "#", "\U0001F600", "\u2028", "'", '"', "/"])
         return c, "literal"
     if k == 4:
         return "\\" + r.choice(sorted(ESCAPABLE - {"^"})), "escaped-meta"
